@@ -88,6 +88,13 @@ func init() {
 				c.Sets[i].Replicas = int32(r.Range(1, 4))
 			}
 		}
+		if r.Chance(0.3) {
+			// set names the API admits (DNS subdomains) that are not DNS labels, or so
+			// long that <set>-<ordinal> exceeds 63 characters (the name itself must stay
+			// within 63: it is used as a label value in the revision listing, and the
+			// API rejects longer selector values, so such a set is never reconciled)
+			c.Sets[0].Name = []string{"db.prod", "a23456789b23456789c23456789d23456789e23456789f23456789g2345678"}[r.Intn(2)]
+		}
 		c.Weights["listerfault"] = 4
 		c.Weights["pvcterm"] = 3
 		c.Weights["scalein"] = 8
@@ -174,7 +181,7 @@ func init() {
 		out := GenPrefix(r, c)
 		boot := out[len(out)-1]
 		out = out[:len(out)-1]
-		shapes := []string{"%s-x", "%s", "%s-1-2", "other-1", "%s-4294967296", "%s-99999999999999999999"}
+		shapes := []string{"%s-x", "%s", "%s-1-2", "other-1", "%s-4294967296", "%s-99999999999999999999", "2048", "%s--1"}
 		for i := range c.Sets {
 			for j := 0; j < r.Intn(3); j++ {
 				name := shapes[r.Intn(len(shapes))]
@@ -325,10 +332,24 @@ func init() {
 		boot := out[len(out)-1]
 		out = out[:len(out)-1]
 		// pods whose names parse as <set>-<digits> but overflow int32, label-less pods
-		for _, name := range []string{"%s-4294967296", "%s-99999999999999999999", "%s-2147483648"} {
+		// and names of other shapes the API admits: digits only, a doubled hyphen,
+		// a leading number
+		for _, name := range []string{"%s-4294967296", "%s-99999999999999999999", "%s-2147483648", "2048", "0", "%s--1", "1-%s"} {
 			if r.Chance(0.25) {
-				out = append(out, Step{K: "mkpod", A: 0, B: r.Intn(4), C: []int{ownThis, ownNone}[r.Intn(2)] | 3<<2, D: c.Sets[0].Template, S: sprintf(name, c.Sets[0].Name)})
+				nm := name
+				if containsStr(nm, "%s") {
+					nm = sprintf(nm, c.Sets[0].Name)
+				}
+				out = append(out, Step{K: "mkpod", A: 0, B: r.Intn(4), C: []int{ownThis, ownNone}[r.Intn(2)] | 3<<2, D: c.Sets[0].Template, S: nm})
 			}
+		}
+		// revisions and pods carrying a non-controller owner reference whose optional
+		// "controller" field is absent
+		for j := 0; j < r.Intn(3); j++ {
+			out = append(out, Step{K: "mkrev", A: 0, B: r.Intn(4), C: r.Intn(16) | 1<<5, D: r.Intn(5)})
+		}
+		if r.Chance(0.4) {
+			out = append(out, Step{K: "mkpod", A: 0, B: r.Intn(4), C: ownNone | 3<<2 | 1<<11, D: c.Sets[0].Template})
 		}
 		return append(out, boot)
 	}}
